@@ -126,6 +126,8 @@ type frame struct {
 	entry  *state
 	spec   *FuncSpec
 	names  map[string]*ssa.Alloc
+	namedVals map[string]ssa.Value
+	parent *frame
 	named  []*ssa.Alloc
 }
 
@@ -162,6 +164,7 @@ type FnVC struct {
 	strConsts map[string]bool
 	mode     string
 	retTerms []string
+	ftParams []string
 }
 
 func (vc *FnVC) newName(prefix string) string {
@@ -226,6 +229,15 @@ func (vc *FnVC) unsupported(f string, a ...any) {
 
 func (vc *FnVC) assumption(s string) { vc.assumes[s] = true }
 
+func shorten(desc string, n int) string {
+	if len(desc) > n {
+		h := fnv.New32a()
+		h.Write([]byte(desc))
+		return fmt.Sprintf("%s~%04x", desc[:n-6], h.Sum32()&0xffff)
+	}
+	return desc
+}
+
 // oblige records a proof obligation: under guard, cond must hold. Afterwards it is assumed.
 func (vc *FnVC) oblige(kind, desc, guard, cond string, tags []string, pos string) {
 	if cond == "true" {
@@ -261,18 +273,38 @@ func (vc *FnVC) oblige(kind, desc, guard, cond string, tags []string, pos string
 
 // ---------- heap ----------
 
-func (vc *FnVC) heapName(name, sort string) string {
-	vc.eng.regHeap(name, sort)
-	return name
+type heapDesc struct {
+	kind   string // elem (Array Int T), mapP, mapV, mapL, scalar (T), raw
+	t1, t2 types.Type
+	raw    string
 }
 
-func (vc *FnVC) hsort(name string) string { return vc.eng.heapSortOf(name) }
+func (vc *FnVC) hsort(name string) string {
+	d, ok := vc.eng.heapDescOf(name)
+	if !ok {
+		return ""
+	}
+	S := vc.sorts
+	switch d.kind {
+	case "elem":
+		return "(Array Int " + S.SortOf(d.t1) + ")"
+	case "mapP":
+		return fmt.Sprintf("(Array Int (Array %s Bool))", S.SortOf(d.t1))
+	case "mapV":
+		return fmt.Sprintf("(Array Int (Array %s %s))", S.SortOf(d.t1), S.SortOf(d.t2))
+	case "mapL":
+		return "(Array Int Int)"
+	case "scalar":
+		return S.SortOf(d.t1)
+	}
+	return d.raw
+}
 
 func (vc *FnVC) fieldHeap(st types.Type, i int) (string, types.Type) {
 	si := vc.sorts.StructOf(st)
 	ft := si.ftypes[i]
 	name := "H:" + si.key + "." + si.fnames[i]
-	vc.heapName(name, "(Array Int "+vc.sorts.SortOf(ft)+")")
+	vc.eng.regHeap(name, heapDesc{kind: "elem", t1: ft})
 	return name, ft
 }
 
@@ -280,7 +312,7 @@ func (vc *FnVC) ghostHeap(st types.Type, g GhostField) (string, string) {
 	si := vc.sorts.StructOf(st)
 	name := "H:" + si.key + "." + g.Name
 	srt := ghostSort(g.GoType)
-	vc.heapName(name, "(Array Int "+srt+")")
+	vc.eng.regHeap(name, heapDesc{kind: "raw", raw: "(Array Int " + srt + ")"})
 	return name, srt
 }
 
@@ -296,21 +328,23 @@ func ghostSort(t string) string {
 
 func (vc *FnVC) cellHeap(t types.Type) string {
 	name := "C:" + typeKey(t)
-	return vc.heapName(name, "(Array Int "+vc.sorts.SortOf(t)+")")
+	vc.eng.regHeap(name, heapDesc{kind: "elem", t1: t})
+	return name
 }
 
 func (vc *FnVC) mapHeaps(mt *types.Map) (present, value, length string) {
 	k := typeKey(mt)
-	ks, vs := vc.sorts.SortOf(mt.Key()), vc.sorts.SortOf(mt.Elem())
-	present = vc.heapName("MP:"+k, fmt.Sprintf("(Array Int (Array %s Bool))", ks))
-	value = vc.heapName("MV:"+k, fmt.Sprintf("(Array Int (Array %s %s))", ks, vs))
-	length = vc.heapName("ML:"+k, "(Array Int Int)")
+	present, value, length = "MP:"+k, "MV:"+k, "ML:"+k
+	vc.eng.regHeap(present, heapDesc{kind: "mapP", t1: mt.Key()})
+	vc.eng.regHeap(value, heapDesc{kind: "mapV", t1: mt.Key(), t2: mt.Elem()})
+	vc.eng.regHeap(length, heapDesc{kind: "mapL"})
 	return
 }
 
 func (vc *FnVC) globalHeap(g *ssa.Global) string {
 	name := "G:" + shortPath(g.Pkg.Pkg.Path()) + "." + g.Name()
-	return vc.heapName(name, vc.sorts.SortOf(g.Type().(*types.Pointer).Elem()))
+	vc.eng.regHeap(name, heapDesc{kind: "scalar", t1: g.Type().(*types.Pointer).Elem()})
+	return name
 }
 
 func (vc *FnVC) newEpoch() *epoch {
@@ -330,6 +364,7 @@ func (vc *FnVC) heapAt(name string, ep *epoch) string {
 	var t string
 	if ep.a == nil {
 		t = vc.declare(q(key), srt)
+		vc.heapTyping(name, t)
 	} else {
 		a, b := vc.heapAt(name, ep.a), vc.heapAt(name, ep.b)
 		if a == b {
@@ -358,6 +393,27 @@ func (vc *FnVC) hset(st *state, name, term string) {
 
 func (vc *FnVC) havocHeap(st *state, name string) {
 	st.heap[name] = vc.freshConst("hv:"+name, vc.hsort(name))
+	vc.heapTyping(name, st.heap[name])
+}
+
+// heapTyping asserts that every cell of a freshly declared heap array holds a well-typed value.
+func (vc *FnVC) heapTyping(name, term string) {
+	d, ok := vc.eng.heapDescOf(name)
+	if !ok {
+		return
+	}
+	switch d.kind {
+	case "elem":
+		if r := vc.sorts.RangeOf(d.t1, fmt.Sprintf("(select %s r!h)", term)); r != "true" {
+			vc.decl = append(vc.decl, fmt.Sprintf("(assert (forall ((r!h Int)) (! %s :pattern ((select %s r!h)))))", r, term))
+		}
+	case "scalar":
+		if r := vc.sorts.RangeOf(d.t1, term); r != "true" {
+			vc.decl = append(vc.decl, fmt.Sprintf("(assert %s)", r))
+		}
+	case "mapL":
+		vc.decl = append(vc.decl, fmt.Sprintf("(assert (forall ((r!h Int)) (! (>= (select %s r!h) 0) :pattern ((select %s r!h)))))", term, term))
+	}
 }
 
 func (vc *FnVC) havocAll(st *state) {
@@ -403,7 +459,7 @@ func (vc *FnVC) project(term string, parent types.Type, pe pathElem) string {
 		if pe.isArr {
 			return fmt.Sprintf("(select %s %s)", term, pe.idx)
 		}
-		return fmt.Sprintf("(select (s.arr %s) (+ (s.off %s) %s))", term, term, pe.idx)
+		return fmt.Sprintf("(select (s.arr %s) %s)", term, pe.idx)
 	}
 	si := vc.sorts.StructOf(parent)
 	return fmt.Sprintf("(%s %s)", si.fields[pe.field], term)
@@ -414,7 +470,7 @@ func (vc *FnVC) inject(term string, parent types.Type, pe pathElem, nv string) s
 		if pe.isArr {
 			return fmt.Sprintf("(store %s %s %s)", term, pe.idx, nv)
 		}
-		return fmt.Sprintf("(mk-slice (store (s.arr %s) (+ (s.off %s) %s) %s) (s.off %s) (s.len %s) (s.cap %s))", term, term, pe.idx, nv, term, term, term)
+		return fmt.Sprintf("(mk-slice (store (s.arr %s) %s %s) (s.len %s) (s.cap %s))", term, pe.idx, nv, term, term)
 	}
 	si := vc.sorts.StructOf(parent)
 	var fs []string
@@ -757,4 +813,18 @@ func (vc *FnVC) rootOfAddrInner(x ssa.Value) (*ssa.Alloc, string, bool) {
 		return vc.rootOfAddr(a)
 	}
 	return nil, "", false
+}
+
+// subSlice builds x[lo:hi] (capacity up to mx). With lo == 0 the backing array is shared; otherwise a fresh array
+// with a shift axiom is introduced (slices carry no offset, so that element terms stay (select (s.arr x) i)).
+func (vc *FnVC) subSlice(x, sort, lo, hi, mx string) string {
+	if lo == "0" {
+		return fmt.Sprintf("(mk-slice (s.arr %s) %s %s)", x, hi, mx)
+	}
+	arrSort := strings.TrimSuffix(strings.TrimPrefix(sort, "(Slice "), ")")
+	a := vc.freshConst("shifted", "(Array Int "+arrSort+")")
+	k := vc.newName("k")
+	vc.decl = append(vc.decl, "")
+	vc.emit("(assert (forall ((%s Int)) (! (= (select %s %s) (select (s.arr %s) (+ %s %s))) :pattern ((select %s %s)))))", k, a, k, x, k, lo, a, k)
+	return fmt.Sprintf("(mk-slice %s (- %s %s) (- %s %s))", a, hi, lo, mx, lo)
 }
